@@ -15,10 +15,10 @@ floating-point clause of the property (rounding drift of repeated add/remove) is
 correspondence check, not here. -/
 
 namespace PhyModel.Props.C06
-open PhyModel PhyModel.Store
+open PhyModel PhyModel.Store PhyModel.Store.C06
 
 /-- **C06, start.**  `Tree(grid_size)`. -/
-theorem cacheOK_init (dt : Data) : CacheOK dt (Store.init dt) := Store.cacheOK_init dt
+theorem cacheOK_init (dt : Data) : CacheOK dt (Store.init dt) := Store.C06.cacheOK_init dt
 
 /-! ### one theorem per operation -/
 
@@ -31,7 +31,7 @@ theorem cacheOK_createRootNode (dt : Data) (s s' : Store) (ch : List Int) (d : L
 theorem cacheOK_createAdd (dt : Data) (s s1 s' : Store) (ch : List Int) (dp : ℕ) (nm : Int)
     (hc : CacheOK dt s) (h : s.createRootNode dt ch [] = some (s1, nm))
     (h2 : s1.addDataPointToNode dt dp nm = some s') : CacheOK dt s' :=
-  Store.cacheOK_createAdd dt s s1 s' ch dp nm hc h h2
+  Store.C06.cacheOK_createAdd dt s s1 s' ch dp nm hc h h2
 
 /-- `add_data_point_to_node` (a clone or the outliers): own `r` multiplied in place, ancestors
 recomputed from the parent up -/
@@ -72,7 +72,7 @@ theorem cacheOK_relabelNodes (dt : Data) (s : Store) (hc : CacheOK dt s) :
     CacheOK dt s.relabelNodes := cacheOK_relabel dt s hc
 
 theorem cacheOK_update (dt : Data) (s : Store) (hc : CacheOK dt s) : CacheOK dt (s.update dt) :=
-  Store.cacheOK_update dt s hc
+  Store.C06.cacheOK_update dt s hc
 
 /-- `from_dict` of any dictionary, in particular `from_dict(to_dict(t))` -/
 theorem cacheOK_dictRoundTrip (dt : Data) (s s' : Store)
@@ -98,7 +98,7 @@ theorem cacheOK_reachable_wfc (dt : Data) (hNZ : DataNZ dt) (ops : List Op) (sys
     (hin : ∀ op ∈ ops, InRange dt op) (h : run dt [Store.init dt] ops = some sys) :
     ∀ s ∈ sys, CacheOK dt s :=
   cacheOK_run dt hNZ ops _ sys hwf hin
-    (fun s hs => by rw [List.mem_singleton] at hs; exact hs ▸ Store.cacheOK_init dt) h
+    (fun s hs => by rw [List.mem_singleton] at hs; exact hs ▸ Store.C06.cacheOK_init dt) h
 
 /-- **C06, every history**, with C07's `WF` along the run as the imported hypothesis (discharged by
 `wf_reachable` for the histories whose operations are `Legal`). -/
